@@ -11,6 +11,7 @@ type Tape struct {
 	pos    int
 	replay bool
 	state  uint64
+	extra  int
 }
 
 // NewTape returns a generating tape seeded with seed.
@@ -55,7 +56,13 @@ func (t *Tape) Draw(n int) int {
 		v = t.vals[t.pos] % uint32(n)
 		t.vals[t.pos] = v
 	} else if t.replay {
+		// exhausted replay tape: zeros, but never without bound (a generator that
+		// rejects the all-zero choice forever must not eat the machine)
 		v = 0
+		t.extra++
+		if t.extra > 4000000 {
+			panic("tape runaway: more than 4e6 draws beyond the end of a replayed tape")
+		}
 		t.vals = append(t.vals, 0)
 	} else {
 		v = uint32((t.next() >> 20) % uint64(n))
